@@ -39,8 +39,14 @@ fn generate(seed: u64, n: usize, csv: &str, out: &mut impl Write) {
             writeln!(out, "L|{}|{}", k, rng.next() >> 16).unwrap();
         }
     }
-    for _ in 0..n {
-        let k = rng.pick(&targets);
+    // the broadcasting operators (layout-specific fast paths for contiguous operands) get extra weight
+    let heavy: Vec<String> = targets
+        .iter()
+        .filter(|k| ["Add", "Sub", "Mul", "Div", "Pow", "Where", "Expand", "MatMul", "Conv", "Concat", "Softmax", "ReduceSum", "fused:AddSoftmax"].contains(&k.as_str()))
+        .cloned()
+        .collect();
+    for i in 0..n {
+        let k = if i % 4 == 0 && !heavy.is_empty() { rng.pick(&heavy) } else { rng.pick(&targets) };
         writeln!(out, "L|{}|{}", k, rng.next() >> 16).unwrap();
     }
 }
